@@ -60,7 +60,7 @@ class DPT4ByteFloat(DPTNumeric):
         try:
             knx_value = float(value)
             return DPTArray(struct.pack(">f", knx_value))
-        except (ValueError, OverflowError, struct.error) as err:
+        except (ValueError, TypeError, OverflowError, struct.error) as err:
             raise ConversionError(
                 f"Could not serialize {cls.dpt_name()}", value=value
             ) from err
